@@ -2,9 +2,21 @@
 # usage: run.sh <property id> [quick|thorough]
 # Contract: exit 0 = held on everything explored; exit 1 + "VIOLATION property=<id> replay=<path>";
 # exit 2 = inconclusive (build failure, watchdog). Rewrites evidence/<id>.json on every run.
+# The thorough tier of C10, C16 and C17 adds a coverage-guided libFuzzer campaign (fuzz/run_fuzz.sh)
+# after the generated search; its statistics are merged into the evidence file.
 set -u
 ID=$1
 TIER=${2:-${VERIF_TIER:-quick}}
 cd /verif || exit 2
 ./build.sh || exit 2
-exec /verif/target/harness/release/fcv check "$ID" --tier "$TIER"
+/verif/target/harness/release/fcv check "$ID" --tier "$TIER"
+RC=$?
+[ $RC -ne 0 ] && exit $RC
+if [ "$TIER" = thorough ]; then
+  case "$ID" in
+    C10) /verif/fuzz/run_fuzz.sh C10 fuzz_report ${FUZZ_RUNS:-1500000}; RC=$? ;;
+    C16) /verif/fuzz/run_fuzz.sh C16 fuzz_glob ${FUZZ_RUNS:-1500000}; RC=$? ;;
+    C17) /verif/fuzz/run_fuzz.sh C17 fuzz_args ${FUZZ_RUNS:-1500000}; RC=$? ;;
+  esac
+fi
+exit $RC
